@@ -5,6 +5,7 @@ import (
 	"fmt"
 	"math"
 	"math/big"
+	"strings"
 
 	"github.com/woodsbury/jmespath/internal/verifmc/core"
 	"github.com/woodsbury/jmespath/internal/verifmc/ref"
@@ -65,6 +66,7 @@ func init() {
 			{Name: "operators", Build: "instr", Fn: c20Operators},
 			{Name: "big-matrix", Build: "instr", Fn: c20BigMatrix},
 			{Name: "float-carriers", Build: "instr", Procs: 1, Fn: c20Floats},
+			{Name: "integer-carriers", Build: "instr", Procs: 1, Fn: c20Ints},
 		},
 		Judge: c20Judge,
 		Assumptions: []string{
@@ -365,6 +367,33 @@ func c20OpsPoint(r *core.Run, x, y doc, tx bool) *core.Violation {
 	if f2.Kind != "ok" || !core.EqualFast(f2.Val, core.Norm(int64(n))) {
 		return mk("filter-disagrees-with-the-truth-rule", "o[?x && !y] | length(@)", fmt.Sprint(n), f2)
 	}
+	// the two filters [?@] and [?!@] partition an array, also when the array reaches them through a function that may hand
+	// its argument on unchanged, and whichever is evaluated first
+	for _, e := range []string{"[to_array(l)[?@], to_array(l)[?!@]]", "[l[?!@], l[?@]]", "[not_null(l)[?@], l, not_null(l)[?!@]] | [@[0], @[2]]", "[reverse(reverse(l))[?@], reverse(reverse(l))[?!@]]"} {
+		pr := prepareImplCached(e).run(d)
+		r.Add("evaluations", 1)
+		var yes, no []any
+		for _, v := range []doc{x, y} {
+			if ref.Truthy(v.Norm) {
+				yes = append(yes, v.Norm)
+			} else if v.Norm != nil {
+				no = append(no, v.Norm) // a null element passes [?!@] but a projection never yields null
+			}
+		}
+		if yes == nil {
+			yes = []any{}
+		}
+		if no == nil {
+			no = []any{}
+		}
+		want := []any{yes, no}
+		if strings.HasPrefix(e, "[l[?!@]") {
+			want = []any{no, yes}
+		}
+		if pr.Kind != "ok" || !core.EqualFast(pr.Val, want) {
+			return mk("filters-do-not-partition", e+" with l = [x, y]", core.Canon(want), pr)
+		}
+	}
 	// the negation of every comparison is the negation of its (possibly null) outcome under the truth rule
 	for _, op := range []string{"<", "<=", ">", ">=", "==", "!="} {
 		cmp := prepareImplCached("x " + op + " y").run(d)
@@ -404,6 +433,15 @@ func c20OpsPoint(r *core.Run, x, y doc, tx bool) *core.Violation {
 }
 
 func c20Judge(r *core.Run, phase string, pt map[string]any) *core.Violation {
+	if pbool(pt, "ints") {
+		sub := *r
+		sub.Clusters = map[string]*core.Cluster{}
+		c20Ints(&sub)
+		for _, c := range sub.Clusters {
+			return c.Min
+		}
+		return nil
+	}
 	if pbool(pt, "float") {
 		// re-run the (small) phase and return the violation of the same law, if any
 		sub := *r
@@ -462,6 +500,42 @@ func c20Judge(r *core.Run, phase string, pt map[string]any) *core.Violation {
 		}
 	}
 	return nil
+}
+
+// c20Ints: equality across the Go integer kinds at the edges of their ranges (the same bit pattern means different
+// numbers in a signed and an unsigned kind) and against exact decimal text.
+func c20Ints(r *core.Run) {
+	type iv struct {
+		v    any
+		text string
+	}
+	vals := []iv{{uint64(1) << 63, "9223372036854775808"}, {uint64(math.MaxUint64), "18446744073709551615"}, {int64(math.MinInt64), "-9223372036854775808"}, {int64(-1), "-1"}, {int64(math.MaxInt64), "9223372036854775807"},
+		{uint64(math.MaxInt64), "9223372036854775807"}, {uint(math.MaxUint64), "18446744073709551615"}, {uint32(math.MaxUint32), "4294967295"}, {int32(-1), "-1"}, {uint8(255), "255"}, {int8(-1), "-1"}, {uint16(65535), "65535"},
+		{int16(-1), "-1"}, {uint64(0), "0"}, {int64(0), "0"}, {uint64(1)<<63 + 1, "9223372036854775809"}, {int(math.MinInt64), "-9223372036854775808"}}
+	for i, a := range vals {
+		for j, b := range vals {
+			exact := a.text == b.text
+			for _, carry := range []string{"native", "native-vs-text", "contains", "in-arrays"} {
+				var d any = map[string]any{"x": a.v, "y": b.v, "h": []any{"filler", b.v, nil}}
+				expr := "x == y"
+				switch carry {
+				case "native-vs-text":
+					d = map[string]any{"x": a.v, "y": json.Number(b.text)}
+				case "contains":
+					expr = "contains(h, x)"
+				case "in-arrays":
+					expr = "[x, {k: x}] == [y, {k: y}]"
+				}
+				o := prepareImplCached(expr).run(d)
+				r.Add("evaluations", 1)
+				r.Add("states", 1)
+				if bb, ok := boolOf(o); !ok || bb != exact {
+					r.Violate(&core.Violation{Sig: "C20/integer-equality-is-not-exact/" + carry, Desc: fmt.Sprintf("%s with x=%s (%T) y=%s (%T)", expr, a.text, a.v, b.text, b.v),
+						Point: map[string]any{"law": "integer-equality/" + carry, "x": fmt.Sprintf("%d:%d", i, j), "expr": expr, "doc": fmt.Sprintf("x=%s (%T) y=%s (%T)", a.text, a.v, b.text, b.v), "ints": true}, Expected: fmt.Sprint(exact), Actual: o.Short()})
+				}
+			}
+		}
+	}
 }
 
 // c20Floats: the equality laws on numbers carried by Go floats that lie within a few units in the last place of each
